@@ -2355,3 +2355,16 @@ mod tests {
         }
     }
 }
+
+// ========================================================================
+// Verification hooks (read-only accessors to private items); compiled only
+// with --cfg pornin_crrl_verif.
+
+#[cfg(pornin_crrl_verif)]
+impl<const MQ: u64> GF255<MQ> {
+    pub fn verif_limbs(&self) -> [u64; 4] { self.0 }
+    pub fn verif_normalized(self) -> Self { let mut r = self; r.set_normalized(); r }
+    pub fn verif_lin(a: &Self, b: &Self, f: u64, g: u64) -> Self { Self::lin(a, b, f, g) }
+    pub fn verif_lindiv31abs(a: &Self, b: &Self, f: u64, g: u64) -> (Self, u64) { Self::lindiv31abs(a, b, f, g) }
+    pub fn verif_decode32_reduce(buf: &[u8]) -> Self { let mut r = Self::ZERO; r.set_decode32_reduce(buf); r }
+}
